@@ -98,7 +98,7 @@ func AutoLoad(s *eval.State, options Options) error {
 	var errs []error
 	for scanner.Scan() {
 		line := scanner.Text()
-		_, err = eval.EvalString(s, line, false)
+		err = autoLoadLine(s, line)
 		if err == nil {
 			count++
 			continue
@@ -119,6 +119,19 @@ func AutoLoad(s *eval.State, options Options) error {
 		count,
 		errorCount, cli.Plural(errorCount, "error"))
 	return errors.Join(errs...)
+}
+
+// One line of the autoload file; a panic (a damaged line can hit a parser or evaluator bug) is turned into
+// an error for that line so the rest of the file is still restored, instead of crashing at startup.
+func autoLoadLine(s *eval.State, line string) (err error) {
+	defer func() {
+		if r := recover(); r != nil {
+			s.Reset()
+			err = fmt.Errorf("panic: %v", r)
+		}
+	}()
+	_, err = eval.EvalString(s, line, false)
+	return err
 }
 
 func AutoSave(s *eval.State, options Options) error {
